@@ -46,7 +46,7 @@ func init() { core.Register(c02{}) }
 func (c02) ID() string    { return "C02" }
 func (c02) Level() string { return "exploration" }
 func (c02) Rule() string {
-	return "populated deployment (objects with canaries, policy, ACL, lock-protected object, upload in flight, IAM users); for every route-table entry (method x shape incl. trailing-slash forms x subresource, S3 and admin) a request that would succeed is built with the independent signer and exactly one credential defect is applied (28 kinds: missing/malformed authorization, unknown key, wrong secret, altered signature / signed header / query / path / payload / chunk / trailer, wrong scope, clock skew produced by moving the simulated client clock, expired or altered presigned URL), optionally with a truncated body and with seeded fragmentation; oracle: 4xx, byte-exact storage snapshot unchanged, no canary in the response; the undamaged twin is then sent and must succeed, otherwise the case is vacuous and not counted; distinct = (route, defect, body mode) whose control succeeded"
+	return "populated deployment (objects with canaries, policy, ACL, lock-protected object, upload in flight, IAM users); for every route-table entry (method x shape incl. trailing-slash forms x subresource, S3 and admin) a request that would succeed is built with the independent signer and exactly one credential defect is applied (28 kinds: missing/malformed authorization, unknown key, wrong secret, altered signature / signed header / query / path / payload / chunk / trailer, wrong scope, clock skew produced by moving the simulated client clock, expired or altered presigned URL), optionally with a truncated body and with seeded fragmentation; oracle: 4xx, byte-exact storage snapshot unchanged, no canary in the response; the undamaged twin is then sent and must succeed, otherwise the case is vacuous and not counted; distinct = (route, defect, body mode) whose control succeeded; further defects: a query argument given twice with the unsigned value first (header and query-string authentication), a secret that was valid until the account's secret was changed by the admin API a moment ago"
 }
 
 type c02Entry struct {
